@@ -240,7 +240,29 @@ func (g *genState) reuse(formDepth int) *form {
 	return fit[g.r.Intn(len(fit))]
 }
 
+// tjItems: a TJ array of 1-3 strings with numbers before, between or after them
+// (integers and reals, negative = kerning closer … as producers write them).
+func (g *genState) tjItems() []item {
+	r := g.r
+	var items []item
+	n := r.Range(1, 3)
+	for i := 0; i < n; i++ {
+		if r.Chance(1, 2) {
+			items = append(items, item{Num: []*big.Rat{ri(int64(r.Range(-400, 400))), rf(int64(r.Range(-900, 900)), 4)}[r.Intn(2)]})
+		}
+		items = append(items, item{Sid: g.sid})
+		g.sid++
+	}
+	if r.Chance(1, 3) {
+		items = append(items, item{Num: ri(int64(r.Range(-300, 300)))})
+	}
+	return items
+}
+
 func (g *genState) show() op {
+	if g.r.Chance(1, 7) {
+		return op{K: "TJ", Items: g.tjItems()}
+	}
 	g.sid++
 	switch {
 	case g.r.Chance(1, 6):
@@ -301,7 +323,7 @@ func (g *genState) ops(n int, formDepth int, inForm bool) []op {
 			p = append(p, op{K: "Tz", N: []*big.Rat{[]*big.Rat{ri(100), ri(50), ri(200)}[r.Intn(3)]}})
 		case x < 94:
 			sh := g.show()
-			if inForm && !quoteParses && sh.K != "Tj" {
+			if inForm && !quoteParses && (sh.K == "'" || sh.K == "\"") {
 				sh = op{K: "Tj", Sid: sh.Sid}
 			}
 			p = append(p, sh)
